@@ -61,7 +61,10 @@ def handle : Handler := fun op inp impl => do
         match iw with
         | some wv =>
           holds := ("C01.exposure_bound", exposureBound kind R e nn wv) ::
-                   ("C01.monotone", monotone kind R c.knobCur wv) :: holds
+                   ("C01.monotone", monotone kind R c.knobCur wv) ::
+                   -- a CloneSet partition written for a percentage entry is a percentage (it follows a resize)
+                   ("C01.percent_partition_is_percentage",
+                      !(kind == .cloneSet && (match e with | .pct _ => true | _ => false)) || (match wv with | .pct _ => true | _ => false)) :: holds
         | none => pure ()
         -- C07.iv is stated for releases without no-need-update pods (rollback-in-batches counts pods differently)
         if nn.isNone ∧ 0 ≤ R then
